@@ -151,54 +151,54 @@ theorem equal_ops (v u : Point) :
 /-! ### layout, guards, hazards, well-formedness of the regenerated data -/
 
 theorem set_facts :
-    G.set.inputs = ["v.x", "v.y", "v.z", "u.x", "u.y", "u.z"] ∧ G.set.outIds = [0, 1, 2]
+    G.set.inputs = ["r.f0", "r.f1", "r.f2", "p0.f0", "p0.f1", "p0.f2"] ∧ G.set.outIds = [0, 1, 2]
     ∧ G.set.guards = [] ∧ G.set.hazards = [] ∧ G.set.wf = true := by ptops_decide "C16PtOps.set_facts"
 
 theorem zero_facts :
-    G.zero.inputs = ["v.x", "v.y", "v.z"] ∧ G.zero.outIds = [0, 1, 2]
+    G.zero.inputs = ["r.f0", "r.f1", "r.f2"] ∧ G.zero.outIds = [0, 1, 2]
     ∧ G.zero.guards = [] ∧ G.zero.hazards = [] ∧ G.zero.wf = true := by ptops_decide "C16PtOps.zero_facts"
 
 /-- `checkInitialized(p, q)` is the guard `Model.Ed448Pt.addG` implements -/
 theorem add_facts :
-    G.add.inputs = ["v.x", "v.y", "v.z", "p.x", "p.y", "p.z", "q.x", "q.y", "q.z", "feD"]
+    G.add.inputs = ["r.f0", "r.f1", "r.f2", "p0.f0", "p0.f1", "p0.f2", "p1.f0", "p1.f1", "p1.f2", "feD"]
     ∧ G.add.outIds = [0, 1, 2]
-    ∧ G.add.guards = [("checkInitialized", ["p", "q"])]
+    ∧ G.add.guards = [("checkInitialized", ["p0", "p1"])]
     ∧ G.add.hazards = [] ∧ G.add.wf = true := by ptops_decide "C16PtOps.add_facts"
 
 theorem double_facts :
-    G.double.inputs = ["v.x", "v.y", "v.z", "u.x", "u.y", "u.z"] ∧ G.double.outIds = [0, 1, 2]
+    G.double.inputs = ["r.f0", "r.f1", "r.f2", "p0.f0", "p0.f1", "p0.f2"] ∧ G.double.outIds = [0, 1, 2]
     ∧ G.double.guards = [] ∧ G.double.hazards = [] ∧ G.double.wf = true := by ptops_decide "C16PtOps.double_facts"
 
 /-- `checkInitialized(p)`: `negateG` -/
 theorem negate_facts :
-    G.negate.inputs = ["v.x", "v.y", "v.z", "p.x", "p.y", "p.z"] ∧ G.negate.outIds = [0, 1, 2]
-    ∧ G.negate.guards = [("checkInitialized", ["p"])]
+    G.negate.inputs = ["r.f0", "r.f1", "r.f2", "p0.f0", "p0.f1", "p0.f2"] ∧ G.negate.outIds = [0, 1, 2]
+    ∧ G.negate.guards = [("checkInitialized", ["p0"])]
     ∧ G.negate.hazards = [] ∧ G.negate.wf = true := by ptops_decide "C16PtOps.negate_facts"
 
 /-- `neg.Negate(q)` checks q, then `v.Add(p, &neg)` checks p and neg: `subG` -/
 theorem sub_facts :
-    G.sub.inputs = ["v.x", "v.y", "v.z", "p.x", "p.y", "p.z", "q.x", "q.y", "q.z", "feD"]
+    G.sub.inputs = ["r.f0", "r.f1", "r.f2", "p0.f0", "p0.f1", "p0.f2", "p1.f0", "p1.f1", "p1.f2", "feD"]
     ∧ G.sub.outIds = [0, 1, 2]
-    ∧ G.sub.guards = [("checkInitialized", ["q"]), ("checkInitialized", ["p", "neg"])]
+    ∧ G.sub.guards = [("checkInitialized", ["p1"]), ("checkInitialized", ["p0", "l0"])]
     ∧ G.sub.hazards = [] ∧ G.sub.wf = true := by ptops_decide "C16PtOps.sub_facts"
 
 theorem select_facts :
-    G.select.inputs = ["v.x", "v.y", "v.z", "p.x", "p.y", "p.z", "q.x", "q.y", "q.z", "cond"]
+    G.select.inputs = ["r.f0", "r.f1", "r.f2", "p0.f0", "p0.f1", "p0.f2", "p1.f0", "p1.f1", "p1.f2", "p2"]
     ∧ G.select.outIds = [0, 1, 2] ∧ G.select.intVars = [9]
     ∧ G.select.guards = [] ∧ G.select.hazards = [] ∧ G.select.wf = true := by ptops_decide "C16PtOps.select_facts"
 
 /-- `neg.Negate(v)` checks v: `condNegG` -/
 theorem condNeg_facts :
-    G.condNeg.inputs = ["v.x", "v.y", "v.z", "cond"] ∧ G.condNeg.outIds = [0, 1, 2]
+    G.condNeg.inputs = ["r.f0", "r.f1", "r.f2", "p0"] ∧ G.condNeg.outIds = [0, 1, 2]
     ∧ G.condNeg.intVars = [3]
-    ∧ G.condNeg.guards = [("checkInitialized", ["v"])]
+    ∧ G.condNeg.guards = [("checkInitialized", ["r"])]
     ∧ G.condNeg.hazards = [] ∧ G.condNeg.wf = true := by ptops_decide "C16PtOps.condNeg_facts"
 
 /-- `checkInitialized(v, u)`: `equalG` -/
 theorem equal_facts :
-    G.equal.inputs = ["v.x", "v.y", "v.z", "u.x", "u.y", "u.z"]
+    G.equal.inputs = ["r.f0", "r.f1", "r.f2", "p0.f0", "p0.f1", "p0.f2"]
     ∧ G.equal.outputs = ["return"] ∧ G.equal.outIds = [10]
-    ∧ G.equal.guards = [("checkInitialized", ["v", "u"])]
+    ∧ G.equal.guards = [("checkInitialized", ["r", "p0"])]
     ∧ G.equal.hazards = [] ∧ G.equal.wf = true := by ptops_decide "C16PtOps.equal_facts"
 
 /-- the list of covered functions is the one this module proves, and no sequence reaches the dummy
